@@ -2,12 +2,22 @@
   C02 — Message stream integrity under arbitrary segmentation.   PROPERTY THEOREMS ONLY
   (helper lemmas: Lemmas/Stream.lean, Lemmas/CodedQueue.lean).
 
-  Part 1 (this section) needs no implementation model: S = Spec/Stream.lean (`wire`, the reference receiver
-  that splits at the delimiter, schedules of `write i | flush | deliver k | receive` events).
+  Part 1 needs no implementation model: S = Spec/Stream.lean (`wire`, the reference receiver that splits at
+  the delimiter, schedules of `write i | flush | deliver k | receive` events).
+  Part 2 is about M = Impl/CodedQueue.lean (`queuePush`, `queueRecv`, `queueShift` … on the C13 ring model with
+  the C01/C03 codec models): representation invariants of both queues for every reachable state, refinement
+  of the flat encoder by `queuePush` on every ring state, and what a sender history puts on the wire.
 -/
 import MptModel.Lemmas.Stream
+import MptModel.Lemmas.CodedQueueHist
+import MptModel.Lemmas.CodedQueueDec
 namespace Mpt.C02
-open Mpt Mpt.Cobs Mpt.Stream
+open Mpt Mpt.Cobs Mpt.Stream Mpt.Codec Mpt.CQ
+
+/-- the value of a model call, for the examples -/
+def _root_.Mpt.Res.toOption' {α} : Res α → Option α
+  | .ok v => some v
+  | _ => none
 
 /-- Frames are uniquely recoverable: if every frame is zero-terminated and zero-free otherwise, splitting
     the concatenation at the delimiter gives back exactly the frames (same count, order, bytes) and
@@ -105,5 +115,151 @@ theorem schedule_integrity (v : Variant) (ms : List Msg) (evs : List Event) :
 
 example : (run .cobsR [[5, 6], [], [9]] [.write 0, .write 2, .flush, .deliver 2, .receive, .write 1, .deliver 9, .flush,
     .receive, .deliver 1, .deliver 5, .receive]).rx.out = [[5, 6], [9], []] := by decide
+
+/-! ### Part 2: the implementation model -/
+
+/-- **`queuePush` refines the flat encoder on the ring's content** — every ring state (any capacity, wrap
+    offset, fill; data contiguous, wrapped, or with the open block across the storage end), every framing,
+    data or termination.  `EInv v q vis fin ms` says: the ring is well-formed, `data.len = done + scratch`,
+    and the content is the finished bytes `vis` followed by the open block of the reference encoding of the
+    consumed message bytes `ms` (`fin` = its finished blocks).  Then `mpt_queue_push`
+    * never leaves the storage and never aborts (the result is `.ok`, not `.oob`/`.fault`), keeps the capacity,
+    * is either refused (negative return) with the invariant — hence content and message state — unchanged, or
+    * consumes `ret ≤ len` bytes and continues the content by the reference encoding of exactly these bytes
+      (`Progress`, data), resp. completes the frame: `fin ++ tail` is the reference frame of the message and
+      `tail` is appended to the finished bytes (`Progress`, termination). -/
+theorem queue_refines_push (v : Variant) (q : EncodeQueue) (vis fin : List Byte) (ms : List (Byte × Bool))
+    (src : Option (List Byte)) (h : EInv v q vis fin ms) :
+    ∃ out, queuePush q src = .ok out ∧ out.q.ring.store.length = q.ring.store.length ∧
+      ((out.ret < 0 ∧ EInv v out.q vis fin ms) ∨
+       (∃ (vis' fin' : List Byte) (ms' : List (Byte × Bool)) (ret : Nat), out.ret = (ret : Int) ∧
+          Progress v src vis fin ms vis' fin' ms' ret ∧ EInv v out.q vis' fin' ms')) :=
+  queuePush_refines v q vis fin ms src h
+
+-- non-vacuity: capacity 12, data at offset 8 with the open block `07 01..06` across the storage end (the
+-- out-of-band path), then 8 zero bytes: 5 are taken, the content is the reference encoding so far
+example :
+    let q0 : EncodeQueue := { ring := Ring.make 12 8 [7, 1, 2, 3, 4, 5, 6], st := { scratch := 7 }, codec := some (.cobs .cobs) }
+    (queuePush q0 (some [0, 0, 0, 0, 0, 0, 0, 0])).toOption'.map
+        (fun o => (o.ret, o.q.ring.content, o.q.ring.off, o.q.st.done, o.q.st.scratch))
+      = some (5, [7, 1, 2, 3, 4, 5, 6, 1, 1, 1, 1, 1], 8, 11, 1) := by decide
+
+/-- **Representation invariant of the encode queue, every reachable state**: from a fresh queue of any
+    capacity and wrap offset, after any sequence of pushes (any pieces), terminations, takes (flushes of any
+    size), growths and re-alignments, `done + scratch = data.len ≤ max` and `off ≤ max`. -/
+theorem queue_inv_encode (v : Variant) (store : List Byte) (off : Nat) (hoff : off ≤ store.length) (ops : List EOp) :
+    let s := erun { q := { ring := { store := store, len := 0, off := off }, codec := some (.cobs v) } } ops
+    s.q.st.done + s.q.st.scratch = s.q.ring.len ∧ s.q.ring.len ≤ s.q.ring.max ∧ s.q.ring.off ≤ s.q.ring.max := by
+  obtain ⟨_, _, _, _, hinv, _⟩ := (erun_hist v ops _ (fresh_hist v store off hoff)).ex
+  exact ⟨hinv.len.symm, hinv.wf.1, hinv.wf.2⟩
+
+/-- **What a sender history puts on the wire**: after any sequence of operations on a fresh queue, the bytes
+    taken from the queue so far are a prefix of the frame stream of the terminated messages and the message
+    in progress; each frame is zero-terminated, zero-free otherwise and decodes (reference decoder) to its
+    message — nothing is lost, duplicated, reordered or overwritten, whatever the ring did in between. -/
+theorem sender_history (v : Variant) (store : List Byte) (off : Nat) (hoff : off ≤ store.length) (ops : List EOp) :
+    let s := erun { q := { ring := { store := store, len := 0, off := off }, codec := some (.cobs v) } } ops
+    ∃ (frames : List (List Byte)) (inQueue partial_ : List Byte),
+      Carries v frames s.msgs ∧ s.wire ++ inQueue = frames.flatten ++ partial_ ∧
+      (s.q.ring.len = 0 → inQueue = [] ∧ partial_ = []) := by
+  obtain ⟨frames, vis, fin, ms, hinv, hcar, hsum, _⟩ := (erun_hist v ops _ (fresh_hist v store off hoff)).ex
+  refine ⟨frames, vis, fin, hcar, hsum, ?_⟩
+  intro h0
+  have hb := hinv.winv.bound
+  have hl := hinv.len
+  obtain ⟨run, g1, _, g3, _⟩ := hinv.winv
+  rcases g3 with ⟨_, _, c, _, _, _⟩ | ⟨a, _, _⟩
+  · exact ⟨List.length_eq_zero_iff.mp (by omega), c⟩
+  · omega
+
+/-- **Sender to reference receiver**: when everything written has been terminated and taken (the queue is
+    empty), the wire is exactly the frame stream, so — by `stream_integrity_frames` — a receiver that gets
+    it in any segmentation obtains exactly the messages that were written, in order. -/
+theorem sender_to_receiver (v : Variant) (store : List Byte) (off : Nat) (hoff : off ≤ store.length) (ops : List EOp)
+    (segs : List (List Byte)) :
+    let s := erun { q := { ring := { store := store, len := 0, off := off }, codec := some (.cobs v) } } ops
+    s.q.ring.len = 0 → segs.flatten = s.wire → (recvAll v segs).out = s.msgs := by
+  intro s h0 hseg
+  obtain ⟨frames, inq, part, hcar, hsum, hz⟩ := sender_history v store off hoff ops
+  obtain ⟨rfl, rfl⟩ := hz h0
+  simp only [List.append_nil] at hsum
+  exact (stream_integrity_frames v frames _ segs hcar (by rw [hseg]; exact hsum)).1
+
+example :
+    (erun { q := { ring := { store := List.replicate 8 0, len := 0, off := 5 }, codec := some (.cobs .zpe) } }
+      [.push [7, 0], .push [0, 9], .term, .take 3, .push [1, 2, 3], .term, .take 100]).wire
+      = [2, 7, 1, 2, 9, 0, 4, 1, 2, 3, 0] := by decide
+
+/-! the decode queue -/
+
+/-- operations on the receiver side -/
+inductive DOp where
+  | feed (bytes : List Byte)
+  | recv
+  | shift
+  | grow (n : Nat)
+  deriving Repr
+
+def dstep (q : DecodeQueue) : DOp → DecodeQueue
+  | .feed bytes => match queueFeed q bytes with | .ok (q', _) => q' | _ => q
+  | .recv => match queueRecv q with | .ok (q', _) => q' | _ => q
+  | .shift => match queueShift q with | .ok q' => q' | _ => q
+  | .grow n => match queueGrow q n with | .ok q' => q' | _ => q
+
+/-- **Representation invariant of the decode queue, every reachable state**: from a fresh queue (any
+    capacity, wrap offset, storage alignment, framing) after any sequence of arrivals of arbitrary bytes,
+    receives, shifts and growths: `pos + len ≤ curr ≤ data.len ≤ max` — the decoded bytes `[pos, pos+len)`
+    lie in front of the input position `curr`, the undecoded ones behind it — and a waiting message is
+    exactly the decoded data. -/
+theorem queue_inv_decode (v : Variant) (store : List Byte) (off base : Nat) (hoff : off ≤ store.length) (ops : List DOp) :
+    let q := ops.foldl dstep { ring := { store := store, len := 0, off := off }, codec := some v, base := base }
+    q.st.pos + q.st.len ≤ q.st.curr ∧ q.st.curr ≤ q.ring.len ∧ q.ring.len ≤ q.ring.max ∧
+    (∀ m, q.st.msg = some m → m = q.st.len) := by
+  have key : ∀ (ops : List DOp) (q : DecodeQueue), DInv q → q.codec = some v →
+      DInv (ops.foldl dstep q) ∧ (ops.foldl dstep q).codec = some v := by
+    intro ops
+    induction ops with
+    | nil => intro q h hc; exact ⟨h, hc⟩
+    | cons op ops ih =>
+      intro q h hc
+      simp only [List.foldl_cons]
+      apply ih
+      · cases op with
+        | feed bytes => obtain ⟨q', c, he, hi, _⟩ := queueFeed_inv q bytes h; simp only [dstep, he]; exact hi
+        | recv => obtain ⟨q', r, he, hi, _⟩ := queueRecv_inv v q hc h; simp only [dstep, he]; exact hi
+        | shift => obtain ⟨q', he, hi, _⟩ := queueShift_inv q h; simp only [dstep, he]; exact hi
+        | grow n => obtain ⟨q', he, hi, _⟩ := queueGrow_inv q n h; simp only [dstep, he]; exact hi
+      · cases op with
+        | feed bytes =>
+          obtain ⟨q', c, he, _, _, _, _⟩ := queueFeed_inv q bytes h
+          simp only [dstep, he]
+          unfold queueFeed at he
+          split at he <;> first | (cases he; exact hc) | cases he
+        | recv => obtain ⟨q', r, he, _, _, hc'⟩ := queueRecv_inv v q hc h; simp only [dstep, he]; exact hc'
+        | shift => obtain ⟨q', he, _, _, _, hc'⟩ := queueShift_inv q h; simp only [dstep, he]; rw [hc']; exact hc
+        | grow n =>
+          obtain ⟨q', he, _⟩ := queueGrow_inv q n h
+          simp only [dstep, he]
+          unfold queueGrow at he
+          split at he
+          · cases he; exact hc
+          · split at he <;> first | (cases he; exact hc) | cases he
+  obtain ⟨hi, _⟩ := key ops _ (DInv.fresh store off hoff (some v) base) rfl
+  exact ⟨hi.bnd.le, hi.bnd.tot, hi.wf.1, hi.bnd.msg⟩
+
+/-- `mpt_queue_recv` is total on every state that satisfies the invariant: no access outside the storage,
+    no store at or behind the decoder's read position, invariant and capacity kept -/
+theorem queue_recv_safe (v : Variant) (q : DecodeQueue) (hc : q.codec = some v) (h : DInv q) :
+    ∃ q' r, queueRecv q = .ok (q', r) ∧ DInv q' ∧ q'.ring.store.length = q.ring.store.length :=
+  let ⟨q', r, he, hi, hs, _⟩ := queueRecv_inv v q hc h
+  ⟨q', r, he, hi, hs⟩
+
+-- non-vacuity: the frame `e1 61 02 62 00` (61 00 00 62, zero pair elimination) arrives first in a wrapped
+-- ring with odd storage address; the zero pair needs the `MissingBuffer` recovery; the message is delivered
+example :
+    let q0 : DecodeQueue := { ring := { store := List.replicate 8 0, len := 0, off := 6 }, codec := some .zpe, base := 3 }
+    ((queueFeed q0 [0xe1, 0x61, 0x02, 0x62, 0x00]).toOption'.bind fun q1 =>
+      (queueRecv q1.1).toOption'.map fun q2 => (q2.2, (currentMessage q2.1).map Res.toOption'))
+      = some (1, some (some (0, [0x61, 0, 0, 0x62]))) := by decide
 
 end Mpt.C02
